@@ -334,6 +334,33 @@ func vC09Scenario(name string, seed uint64) string {
 			return fmt.Sprintf("socket-left-after-close/%d (before Close: %d)", n, before)
 		}
 		return ""
+	case "state-update-in-flight":
+		// C08: the publisher has received a state from the address connection and is about to store
+		// it when Close lands: the closed connection must still report SHUTDOWN
+		w, err := vC09Setup(r)
+		if err != nil || !w.ready() {
+			return "setup"
+		}
+		const at = "connectivityStateManager.updateState#Lock#1"
+		verifrt.Start(nil)
+		verifrt.Hold(at, 1)
+		w.px.CutAll() // the transport ends: Idle is handed to the publisher
+		if !vWaitUntil(3*time.Second, func() bool { return verifrt.Held(at) >= 1 }) {
+			verifrt.Release(at)
+			verifrt.Stop()
+			return "gate-script-infeasible/publisher-not-held"
+		}
+		done := make(chan bool, 1)
+		start := time.Now()
+		go func() { done <- vClose(w.cc, 6*time.Second) }()
+		time.Sleep(40 * time.Millisecond) // Close has published Shutdown and waits for the publisher
+		verifrt.Release(at)
+		ok := <-done
+		verifrt.Stop()
+		if !ok {
+			return "close-hangs/" + strings.Join(vParked(), ",")
+		}
+		return w.aftermath(time.Since(start), bound)
 	case "concurrent-close":
 		w, err := vC09Setup(r)
 		if err != nil || !w.ready() {
@@ -379,8 +406,17 @@ func TestVerifC09Child(t *testing.T) {
 	os.WriteFile(os.Getenv("VERIF_CHILD_OUT"), []byte(res), 0o644)
 }
 
+// C08: what a closed connection reports, with a state update in flight
+func TestVerifC08Closed(t *testing.T) {
+	vC09Run(t, []string{"state-update-in-flight"}, "closed/", 88)
+}
+
 func TestVerifC09(t *testing.T) {
-	r := vNewRand(vSeed() + 9)
+	vC09Run(t, vC09Names, "close/", 9)
+}
+
+func vC09Run(t *testing.T, names []string, class string, salt uint64) {
+	r := vNewRand(vSeed() + salt)
 	rounds := 2
 	if vThorough() {
 		rounds = 12
@@ -388,7 +424,7 @@ func TestVerifC09(t *testing.T) {
 	type job struct{ name, spec, out string }
 	var jobs []job
 	for round := 0; round < rounds; round++ {
-		for _, n := range vC09Names {
+		for _, n := range names {
 			spec := fmt.Sprintf("%s %d", n, r.U64()%1000000007)
 			jobs = append(jobs, job{n, spec, fmt.Sprintf("%s/verif_c09_%d_%d.out", os.TempDir(), os.Getpid(), len(jobs))})
 		}
@@ -412,7 +448,7 @@ func TestVerifC09(t *testing.T) {
 			if fail == "setup" {
 				fail = "scenario-setup-failed"
 			}
-			vEmit(vCase{Class: "close/" + j.name, Fail: fail, Sig: j.spec, Info: map[string]interface{}{"scenario": j.name, "spec": j.spec, "outcome": map[bool]string{true: "ok", false: "fail"}[fail == ""], "replay": "VERIF_CHILD='" + j.spec + "' go test -run TestVerifC09Child"}})
+			vEmit(vCase{Class: class + j.name, Fail: fail, Sig: j.spec, Info: map[string]interface{}{"scenario": j.name, "spec": j.spec, "outcome": map[bool]string{true: "ok", false: "fail"}[fail == ""], "replay": "VERIF_CHILD='" + j.spec + "' go test -run TestVerifC09Child"}})
 		}(j)
 	}
 	wg.Wait()
